@@ -324,6 +324,12 @@ func (s *alphSim) makeEvent(kind, level, variant int, seq uint64) *simEvent {
 			}
 		}
 		e.payload = attestPayload(tok, dec, meta.symbol, meta.name)
+		if kind == 2 && (variant/2)%3 == 1 {
+			// the attestation layout followed by trailing bytes: still an attestation (payload id 2)
+			// claiming metadata the token contract does not report
+			e.payload = append(e.payload, make([]byte, 1+variant%7)...)
+			s.stats.Fault("attestation-with-trailing-bytes")
+		}
 		e.isAttest, e.isTransfer = true, false
 		e.attestOK = kind == 1 || (kind == 5 && meta.failMode == 13) // a slow answer is still a correct one
 		payloadV = bvec(e.payload)
